@@ -75,7 +75,7 @@ def do_eval(ids):
     subprocess.run(["git", "-C", repo, "worktree", "remove", "--force", wt], capture_output=True)
     subprocess.run(["git", "-C", repo, "worktree", "add", "-q", "--detach", wt, "HEAD"], check=True)
     try:
-        for d in sorted(glob.glob(os.path.join(SEEDED, "C??-?"))):
+        for d in sorted(glob.glob(os.path.join(SEEDED, "C??-*")), key=lambda d: (os.path.basename(d)[:3], int(os.path.basename(d)[4:]))):
             sid = os.path.basename(d)
             if ids and sid not in ids:
                 continue
